@@ -144,7 +144,8 @@ TEXT = {
         text="Theorems decode_encode (wire codec round trip for all payloads/TTLs/names/services of 1-8 non-NUL-terminated bytes), "
              "deframe_any_schedule (every chunking and every placement of reads returns exactly the framed messages), "
              "deliver_exactly_once_at_addressee (hop-by-hop walk over arbitrary networks with a route), addressee_unique (IDs that differ "
-             "only in letter case are different nodes). Tie: regenerated layout/"
+             "only in letter case are different nodes), stream_link_roundtrip (encode, frame, any chunking, deframe, decode = identity on "
+             "every sequence of datagrams). Tie: regenerated layout/"
              "framing facts + byte-exact differential runs of translateData*, the framer and handleMessageData (single node and multi-node pump), "
              "and real nodes in a chain (link engine): payloads of 0 … MTU bytes (MTU-37 … MTU included) sent across real links between nodes "
              "whose IDs may differ only in case, every node listening on the service — received exactly once, at the addressee, unaltered.",
